@@ -293,12 +293,14 @@ Section C16.
            hydrogen on which the input writes bonding descriptors asks for more than one bond: not judged *)
         match (if is_added_h k then None else tnode_of k) with
         | Some tn =>
+            let single := match aget (S "single_h_frag") a with Some (VBool true) => true | _ => false end in
             match bonding_list (t_bonding tn) with
-            | [] => match nbrs g k with [x] => fid_of g x =? fid_of g k | _ => false end
-            | [d] => match aget (S "single_h_frag") a, last_char d with
-                     | Some (VBool true), Some c => negb (Ascii.eqb c "1") || Nat.leb (length (nbrs g k)) 1
-                     | _, _ => true
-                     end
+            | [] => if single then Nat.leb (length (nbrs g k)) 1     (* a lone hydrogen fragment *)
+                    else match nbrs g k with [x] => fid_of g x =? fid_of g k | _ => false end
+            | [d] => if single then match last_char d with
+                                    | Some c => negb (Ascii.eqb c "1") || Nat.leb (length (nbrs g k)) 1
+                                    | None => true end
+                     else true
             | _ => true
             end
         | None => match nbrs g k with [x] => fid_of g x =? fid_of g k | _ => false end
